@@ -178,7 +178,7 @@ def skeletons(n, nops):
 
 
 def spec(ctx):
-    plan = [(2, 2), (3, 1)] if ctx.quick else [(2, 3), (3, 2), (4, 1), (5, 1)]
+    plan = [(2, 2), (3, 1), (4, 1)] if ctx.quick else [(2, 3), (3, 2), (4, 1), (5, 1)]
     rust = ["#[cfg(kani)]", "mod c09 {", "    use super::*;"]
     hs = []
     space = {}
